@@ -141,6 +141,7 @@ func safely(f func()) (panicked string) {
 type pending struct {
 	op, impl, kind, input string
 	drv                   string
+	canon                 func(string) string // applied to the model's answer before comparing
 }
 
 type checker struct {
@@ -150,6 +151,10 @@ type checker struct {
 
 func (c *checker) expect(kind, op, impl string) {
 	c.pend = append(c.pend, pending{op: op, impl: impl, kind: kind, input: op, drv: *driver})
+}
+
+func (c *checker) expectCanon(kind, op, impl string, canon func(string) string) {
+	c.pend = append(c.pend, pending{op: op, impl: impl, kind: kind, input: op, drv: *driver, canon: canon})
 }
 
 func (c *checker) expectWire(kind, op, impl string) {
@@ -197,6 +202,9 @@ func (c *checker) flush() {
 		}
 		for k, i := range idx {
 			p := c.pend[i]
+			if p.canon != nil {
+				ans[k] = p.canon(ans[k])
+			}
 			if ans[k] != p.impl {
 				c.rep.Disagree(report.Disagreement{Kind: p.kind, Input: p.input, Impl: p.impl, Model: ans[k]})
 			}
